@@ -96,7 +96,7 @@ impl Property for C06 {
             .boxed()
     }
     fn cases(&self, tier: Tier) -> u64 {
-        tier.pick(1_000_000, 12_000_000)
+        tier.pick(4_000_000, 40_000_000)
     }
     fn check(&self, c: &Case, obs: &mut Obs) -> Result<(), String> {
         let lg = lang(&c.lang);
